@@ -188,6 +188,16 @@ def run(ctx):
                     ctx.check(ok, "R20.2", INST, label, msg=f"install_requirements with {label}: installs/record {got}, specified {[(exp_install, exp_record)]}",
                               key=f"install {label}", node=program.func(INST), rel="requirements.py", sample={"result": repr(got)})
 
+    ctx.rule("R20.7", "when the installer fails (Home Assistant raises RequirementsNotFound) the record does not claim the package: the failure propagates or the "
+             "stored record keeps what it said before - a recorded version that was never installed lets pyscript 'update' a package someone else installs later", floor=6)
+    for installed, recorded, wanted in ((None, None, "1.0.0"), (None, None, unp), (None, "1.0.0", "2.0.0"), ("1.0.0", "1.0.0", "2.0.0"), ("1.0.0", "1.0", "2.0"), (None, "2.0.0", unp)):
+        got = _install(program, consts, True, installed, recorded, wanted, fail_install=True)
+        label = f"installer fails: installed={installed} recorded={recorded} wanted={'unpinned' if wanted == unp else wanted}"
+        bad = [g for g in got if isinstance(g[0], list) and g[1] != recorded]
+        ctx.check(bool(got) and not bad, "R20.7", INST, label,
+                  msg=f"install_requirements, {label}: continues and stores the record {[g[1] for g in bad]} for a package that was not installed (before: {recorded})",
+                  key=f"failed install {installed} {recorded} {wanted}", node=program.func(INST), rel="requirements.py", sample={"result": repr(got)})
+
     ctx.rule("R20.5", "on reload the yaml configuration is refreshed before the installer's allow_all_imports gate is consulted; packages are installed before scripts are loaded", floor=1)
     uid = "__init__.py::async_setup_entry.reload_scripts_handler"
     pol = FlowPolicy(program, events=["update_yaml_config", "install_requirements", "load_scripts"], may_raise_all=False, cancel=False, record_atoms=False)
@@ -286,7 +296,7 @@ def run(ctx):
     )
 
 
-def _install(program, consts, allow, installed, recorded, wanted):
+def _install(program, consts, allow, installed, recorded, wanted, fail_install=False):
     unp = consts["UNPINNED_VERSION"].v
     AV, AS, AI = consts["ATTR_VERSION"].v, consts["ATTR_SOURCES"].v, consts["ATTR_INSTALLED_VERSION"].v
     allreq = DictV([(Const("foo"), DictV([(Const(AV), Const(wanted)), (Const(AS), ListV([Const("req.txt")])), (Const(AI), Const(installed))]))])
@@ -327,8 +337,12 @@ def _install(program, consts, allow, installed, recorded, wanted):
         items = [(k, v) for k, v in data.items if k != Const(CIP)] + ([(Const(CIP), DictV(cur.items, "entry.installed"))] if cur is not None else [])
         return [(cfg, DictV(items))]
 
-    pol = FlowPolicy(program, events=["async_process_requirements"], may_raise_all=False, cancel=False, globals_=dict(consts),
-                     summaries={"hass.async_add_executor_job": executor, "Version": _version_summary, "hass.config_entries.async_update_entry": update_entry,
+    def failing_installer(interp, node, args, kwargs, cfg, out):
+        out.add("raise", cfg.emit(("call", "async_process_requirements", tuple(args), ())).set("$exc", ExcV("RequirementsNotFound", "pip could not install the package")))
+        return []
+
+    pol = FlowPolicy(program, events=[] if fail_install else ["async_process_requirements"], may_raise_all=False, cancel=False, globals_=dict(consts),
+                     summaries={**({"async_process_requirements": failing_installer} if fail_install else {}), "hass.async_add_executor_job": executor, "Version": _version_summary, "hass.config_entries.async_update_entry": update_entry,
                                 "config_entry.data.get": data_get, "config_entry.data.copy": data_copy})
     heap = {"entry.data": ObjV("entrydata", "MappingProxy")}
     if recorded is not None:
